@@ -442,8 +442,11 @@ func c09Sched(c *vrep.Ctx) {
 					msg = fmt.Sprintf("thread %d (input %d) got %s, alone it gets %s", t, pick[t], got[t], want[pick[t]])
 				}
 			}
-			if msg == "" && vStateHash(cl, false) != h0 {
-				msg = "classifier state changed by concurrent Match calls"
+			// Match on the unchanged tree takes no lock and therefore may not write to anything reachable
+			// from the classifier; code that synchronises may keep state (a guarded cache), which the
+			// access jobs and the result comparison judge instead
+			if msg == "" && s.SyncOps == 0 && vStateHash(cl, false) != h0 {
+				msg = "classifier state changed by concurrent Match calls that use no synchronisation"
 			}
 		}
 		r.Note = map[string]interface{}{"msg": msg, "switches": s.Switches, "steps": s.Steps, "enabled": s.MaxEnabled, "obs": fmt.Sprintf("%v|%d|%d|%s", got, s.Steps, s.Switches, msg)}
